@@ -138,6 +138,16 @@ func (s *Sim) opConnect(op *Op) {
 	}
 	sl.expect(&Expect{Kind: rc.CONNACK, Rule: "C13/connack", ReasonOK: ok00, SP: sp, What: fmt.Sprintf("successful CONNACK (session present %d)", sp), Step: m.Step})
 	if present {
+		// the broker may repeat the PUBREC of an own QoS 2 publish that is still waiting for its PUBREL (it resends its
+		// whole in-flight store; harmless, the first PUBREC may have been lost with the connection)
+		q2 := make([]int, 0, len(sess.InQ2))
+		for id := range sess.InQ2 {
+			q2 = append(q2, int(id))
+		}
+		sort.Ints(q2)
+		for _, id := range q2 {
+			sl.expect(&Expect{Kind: rc.PUBREC, PID: uint16(id), Optional: true, Rule: "C07/unsolicited-response", What: "repeated PUBREC of an own QoS 2 publish in progress", Step: m.Step, SP: -1})
+		}
 		// every unacknowledged message is redelivered
 		for _, o := range sess.Out {
 			o.Offline = false
